@@ -8,12 +8,14 @@ Block format (floats as 64-bit hex patterns):
   edges <l> <r> <parent> <child> ...        (4 tokens per edge)
   ins <edge ids>      rem <edge ids>         (tskit's insertion / removal index)
   count:  sb <0|1>   sample <0|1>...   mnode <node ids>   mpos <hex>...   ntime <hex>... (nodes_time)
+          breaks <hex>... (ts.breakpoints)   wantspan <0|1> (print the table of specified span weights)
   unary:  n <num_nodes>   mask <0|1>...
   end
 Replies (one line):
-  <id> count <valid><noOverlap><nodesOk><mutsOk><timesOk> | <mutations_edge, -1 = NULL> |
+  <id> count <valid><noOverlap><nodesOk><mutsOk><timesOk><partitionOk> | <mutations_edge, -1 = NULL> |
        <edges_mutations hex> | <edges_span hex> | <specEdge per mutation> | <nodes_samples hex> |
-       <samplesBelow at each mutation (the specified size-biased weight)>
+       <samplesBelow at each mutation (the specified size-biased weight)> |
+       <with wantspan: for every edge, the specified span weight at every break point, edges separated by ;>
   <id> unary <valid><nodesOk> <containsUnary 0|1> <hasLocallyUnary 0|1>
   <id> bad-op      (unparsable, sweep out of fuel, or the walk towards the root failed)
 -/
@@ -55,18 +57,23 @@ def runCount (id : String) (blk : List (List String)) (T : Tables Float) : Optio
   let mnode ← mapAll String.toNat? (← field blk "mnode")
   let mpos ← mapAll hexToFloat (← field blk "mpos")
   let ntime ← mapAll hexToFloat (← field blk "ntime")
+  let breaks ← mapAll hexToFloat (← field blk "breaks")
+  let wantspan ← (← parseBools (← field blk "wantspan")).head?
   let M : CountMut.Muts Float := { node := mnode.toArray, pos := mpos.toArray }
   let n := sample.length
   let flags := b2s (validB T) ++ b2s (noOverlapB T) ++ b2s (nodesBelowB T n) ++ b2s (CountMut.mutsOkB M n)
-    ++ b2s (CountMut.timesOkB T ntime.toArray && ntime.length == n)
+    ++ b2s (CountMut.timesOkB T ntime.toArray && ntime.length == n) ++ b2s (CountMut.partitionB T breaks)
   let out ← CountMut.countMutations T M sample.toArray sb
   if out.err then none
   let spec := (List.range mnode.length).map (fun m => on2s (CountMut.specEdge T M m))
   let specW := (List.range mnode.length).map (fun m =>
     toString (CountMut.samplesBelow T sample.toArray (aget M.pos m) (aget M.node m)))
+  let specS := if wantspan then
+      "; ".intercalate ((CountMut.spanWeights T sample.toArray breaks).map fun row => join (row.map toString))
+    else ""
   pure (id ++ " count " ++ flags ++ " | " ++ join (out.mutEdge.toList.map on2s) ++ " | "
     ++ join (out.edgeMuts.toList.map floatToHex) ++ " | " ++ join (out.edgeSpan.toList.map floatToHex)
-    ++ " | " ++ join spec ++ " | " ++ join (out.nodeSamples.toList.map floatToHex) ++ " | " ++ join specW)
+    ++ " | " ++ join spec ++ " | " ++ join (out.nodeSamples.toList.map floatToHex) ++ " | " ++ join specW ++ " | " ++ specS)
 
 def runUnary (id : String) (blk : List (List String)) (T : Tables Float) : Option String := do
   let n ← (← (← field blk "n").head?).toNat?
